@@ -6,13 +6,15 @@ PROPS = {"C18": dict(
         "Zrnt.Proofs.C18.poll_sites_propagate",
         "Zrnt.Proofs.C18.errors_propagate",
         "Zrnt.Proofs.C18.engine_verdicts_map_to_errors",
+        "Zrnt.Proofs.C18.payload_step_placed_as_specified",
+        "Zrnt.Proofs.C18.payload_step_unconditional_from_capella",
         "Zrnt.Proofs.C18.head_polls_kept",
         "Zrnt.Proofs.C18.fault_implies_error",
         "Zrnt.Proofs.C18.no_fault_same_result",
         "Zrnt.Proofs.C18.no_fault_same_result_total",
         "Zrnt.Proofs.C18.cancel_from_any_poll_is_error",
     ],
-    modes=[dict(name="c18", nontrivial=lambda op, g: g in ("err", "same", "ok"), tie_lines=[r"^genfail\b"])],
+    modes=[dict(name="c18", nontrivial=lambda op, g: g in ("err", "same", "ok") or g.startswith("ok "), tie_lines=[r"^genfail\b"])],
     regen=["extract:faultsites"],
     components=["faults", "chain"],
     level="proof",
